@@ -72,10 +72,11 @@ func TestC13(t *testing.T) {
 		realFileCacheRestarts(t, r, tmp)
 		retainingCaches(r)
 		partlyFailingPolls(r)
+		expiredThenLookedUpAgain(r)
 		failedStartUps(r)
 		crashPart(t, r, tmp)
 	}
-	r.Require("histories_with_hostile_names", "polls_with_one_secret_failing", "restarts_on_a_retaining_cache", "payloads_checked", "restarts_from_payload", "fileclient_checks", "flush_after_lookup", "flush_after_poll", "flush_on_shutdown",
+	r.Require("secrets_looked_up_again_after_expiry", "histories_with_hostile_names", "polls_with_one_secret_failing", "restarts_on_a_retaining_cache", "payloads_checked", "restarts_from_payload", "fileclient_checks", "flush_after_lookup", "flush_after_poll", "flush_on_shutdown",
 		"fuzz_certainly_valid", "fuzz_certainly_invalid", "fuzz_grey", "cache_write_failures", "parked_write_cases", "crash_points", "io_errors_injected", "steps_with_stale_pinned_secrets", "restarts_from_real_cache_files", "retaining_cache_checks", "failed_start_ups", "failed_initial_cache_writes", "start_ups_with_unreadable_cache", "writes_after_a_killed_write", "quiet_polls_after_a_failed_cache_write")
 	r.Rule("histories: initial fetch, lookups, polls with/without service changes (some with failing cache writes), shutdown; after every step the last payload must be a complete document of exactly the known names with their current version+bytes, a new store started from it with a dead service must serve the same, and NewFileClient must agree on non-empty secrets. Fuzz: documents mutated around the valid format (bit flips, truncations, token splices, nulls, wrong types, duplicate/empty keys, case variants, nesting, invalid UTF-8). Crash part: every system call of FileCache.Write as kill point and as error point. Distinct = (step kind, flush expected?), fuzz (mutation, class, sources used), crash (syscall, fault)")
 }
@@ -1279,4 +1280,76 @@ func failedStartUps(r *evid.Run) {
 		st2.Close()
 	}
 	r.Distinct("failed start-ups")
+}
+
+// expiredThenLookedUpAgain: a process inherits an undeclared secret from the cache of its predecessor, never
+// asks for it, and the expiry rule removes it at a poll; the secret is rotated at the service; later the
+// process looks it up after all. From then on every cache document holds the version the store serves.
+func expiredThenLookedUpAgain(r *evid.Run) {
+	for c := 0; c < 6; c++ {
+		svc := fakesvc.New()
+		svc.Set("svc/a", 1, []byte("a-1"))
+		svc.Set("x/plum", 1, []byte("plum-version-1"))
+		now := int64(1_700_000_000)
+		clock := func() time.Time { return time.Unix(now, 0) }
+		c1 := &fakesvc.MonCache{}
+		p1, err := setec.NewStore(context.Background(), setec.StoreConfig{Client: svc, Secrets: []string{"svc/a"}, AllowLookup: true, Cache: c1, PollInterval: -1, TimeNow: clock, Logf: func(string, ...any) {}})
+		if err != nil {
+			r.Violation("newstore-fails", -1, err.Error(), nil)
+			return
+		}
+		p1.LookupSecret(context.Background(), "x/plum")
+		p1.Close()
+		c2 := &fakesvc.MonCache{Initial: c1.Last()}
+		p2, err := setec.NewStore(context.Background(), setec.StoreConfig{Client: svc, Secrets: []string{"svc/a"}, AllowLookup: true, Cache: c2, ExpiryAge: time.Hour, PollInterval: -1, TimeNow: clock, Logf: func(string, ...any) {}})
+		if err != nil {
+			r.Violation("newstore-fails", -1, err.Error(), nil)
+			return
+		}
+		aver := uint32(1)
+		bumpA := func() {
+			aver++
+			svc.Set("svc/a", aver, []byte(fmt.Sprintf("a-%d", aver)))
+			p2.Refresh(context.Background())
+		}
+		for k := 0; k < c%3; k++ {
+			bumpA() // some other flush while plum sits in the store unasked-for
+		}
+		now += 2 * 3600
+		p2.Refresh(context.Background()) // plum (unread for two hours, no handle) is dropped here
+		if c >= 3 {
+			bumpA()
+		}
+		svc.Set("x/plum", 2, []byte("plum-version-2"))
+		h, lerr := p2.LookupSecret(context.Background(), "x/plum")
+		if lerr != nil {
+			r.Violation("lookup-fails", -1, lerr.Error(), nil)
+			p2.Close()
+			return
+		}
+		check := func(when string) bool {
+			r.Eval(1)
+			r.Count("secrets_looked_up_again_after_expiry", 1)
+			doc, derr := decodePayload(c2.Last())
+			served := string(h.Get())
+			if e := doc["x/plum"]; derr != nil || e == nil || e.Secret == nil || string(e.Secret.Value) != served {
+				held := "nothing"
+				if e != nil && e.Secret != nil {
+					held = fmt.Sprintf("version %d %q", e.Secret.Version, e.Secret.Value)
+				}
+				r.Violation("store-serves-what-the-cache-lacks", -1, fmt.Sprintf("case %d, %s: x/plum was inherited from the previous process's cache, expired unasked-for, was rotated at the service and then looked up: the store serves %q, the cache document holds %s", c, when, served, held), nil)
+				return false
+			}
+			return true
+		}
+		ok := check("right after the lookup")
+		if ok {
+			bumpA()
+			ok = check("after a later poll that installed something else")
+		}
+		p2.Close()
+		if ok {
+			check("after the clean shutdown")
+		}
+	}
 }
